@@ -247,8 +247,25 @@ def run_monitors(cfg, items, endl, props=None):
             for (t, k, v) in it["kvs"]:
                 lw.setdefault(k, set()).add(v)
                 dl[k] = None
-            if len(ks) > 0:
-                track_policy = track_policy and False
+            if it["a"] == 3 and nres == len(ks):
+                # every element succeeds: each one is a use, in iteration order
+                pure_update = pre_found is not None and all(k in pre_found for k in ks)
+                for (t, k, v) in it["kvs"]:
+                    step += 1
+                    uses[k] = step
+                    if pure_update and k in cnt:
+                        cnt[k] = (cnt[k][0] + 1, now)
+                    else:
+                        cnt.pop(k, None)
+                    if not pure_update:
+                        created.pop(k, None)
+                if kind == "lfuda" and not pure_update:
+                    cnt.clear()
+            else:
+                for k in ks:
+                    uses.pop(k, None); created.pop(k, None); cnt.pop(k, None)
+                if kind == "lfuda":
+                    cnt.clear()
         elif n == "erase":
             k = it["k"]
             addressed.add(k)
@@ -287,6 +304,7 @@ def run_monitors(cfg, items, endl, props=None):
             for k, v in res:
                 check_hit(i, k, v, now, n)
                 if v is not None and not it["peek"]:
+                    step += 1
                     uses[k] = step
                     if k in cnt:
                         cnt[k] = (cnt[k][0] + 1, now)
@@ -306,7 +324,10 @@ def run_monitors(cfg, items, endl, props=None):
                 if post["size"] != len(post_found) and not (kind in ("ut_map", "ut_set") and False):
                     viol("C17", i, "after clean_expired_values() size() = %d but %d keys are live" % (post["size"], len(post_found)))
         elif n == "dyn_age":
-            if kind == "lfuda" and o.startswith("n") and track_policy:
+            complete = pre is not None and all(k in cnt for k in pre_found)
+            if kind == "lfuda" and o.startswith("n") and not complete:
+                cnt.clear()
+            if kind == "lfuda" and o.startswith("n") and track_policy and complete:
                 aged = 0
                 for k in list(cnt):
                     c, idle = cnt[k]
@@ -350,6 +371,11 @@ def run_monitors(cfg, items, endl, props=None):
                     # exactly one previously resident entry is gone (live or expired)
                     if kind not in TTLK and len(reallost) != 1:
                         viol("C03", i, "insert into the full cache removed %d entries" % len(reallost))
+                    if kind == "lfuda":
+                        for k_ in list(cnt):
+                            c_, idle_ = cnt[k_]
+                            if k_ != it["k"] and idle_ + cfg["tick"] * MS < now:
+                                cnt[k_] = ((c_ * cfg["rnum"]) >> cfg["rk"], now)
                     # ---- the victim (C10-C13, C15) ----
                     if len(reallost) == 1 and track_policy:
                         victim = next(iter(reallost))
@@ -368,11 +394,6 @@ def run_monitors(cfg, items, endl, props=None):
                             if victim != exp:
                                 viol("C12", i, "evicted %d, earliest inserted is %d" % (victim, exp))
                         if kind in ("lfu", "lfuda") and all(k in cnt for k in res):
-                            if kind == "lfuda":
-                                for k in res:
-                                    c, idle = cnt[k]
-                                    if idle + cfg["tick"] * MS < now:
-                                        cnt[k] = ((c * cfg["rnum"]) >> cfg["rk"], now)
                             mn = min(cnt[k][0] for k in res)
                             if cnt[victim][0] != mn:
                                 viol("C11" if kind == "lfu" else "C14", i, "evicted %d with count %d, minimum is %d" % (victim, cnt[victim][0], mn))
@@ -383,13 +404,15 @@ def run_monitors(cfg, items, endl, props=None):
                     elif kind in ("lfuda",):
                         track_policy = False
                 if n != "insert" and reallost:
-                    track_policy = False
                     for k in reallost:
                         for d in (uses, created, cnt):
                             d.pop(k, None)
             else:
                 if lost:
                     viol("C03", i, "%s removed live entries %s" % (n, sorted(lost)))
+            for d_ in (uses, created, cnt):
+                for k in [k for k in d_ if k not in post_found]:
+                    d_.pop(k, None)
             # values of untouched live entries never change (C03 / C19)
             for k in pre_found & post_found:
                 if k in addressed:
